@@ -6,6 +6,7 @@ from sa import AnalysisError
 from sa.kinds import (key, utext, call_name, recv_text, calls_in, node_calls, canon_compare, oriented,
                       loop_body_exits_early, all_stores)
 from sa.cfg import walk_calls, walk_nodes
+from sa.astutil import canon_text as ct
 
 EXPLANATION = (
     "Decided part of C20: (R1) _process_close_market, for a book (non-recorder) update of a known market, "
@@ -124,8 +125,9 @@ def _sequence(ctx, rep):
     if calls:
         c = calls[0]
         n = [x for x in cfg.live_nodes() if c in walk_calls(x.exprs)][0]
-        ifs = [s for s in lp.body if isinstance(s, ast.If)]
-        cond = utext(ifs[0].test) if len(ifs) == 1 and len(lp.body) == 1 else None
+        from sa.kinds import sbody
+        ifs = [s for s in sbody(lp.body) if isinstance(s, ast.If)]
+        cond = utext(ifs[0].test) if len(ifs) == 1 and len(sbody(lp.body)) == 1 else None
         sv = utext(lp.target)
         rep.check(cond == "stream_id in %s.stream_ids or %s.market_filter == {}" % (sv, sv), "R2",
                   key(f, None, "called for subscribed strategies and for strategies with an empty filter"), f, c, str(cond))
@@ -214,7 +216,8 @@ def _rest(ctx, rep):
     tab = {}
     for lp2 in walk_nodes(rm.node.body, ast.For):
         calls = [c for c in walk_calls(lp2.body) if call_name(c) == "remove_market"]
-        if len(calls) == 1 and not loop_body_exits_early(lp2) and len(lp2.body) == 1:
+        from sa.kinds import sbody
+        if len(calls) == 1 and not loop_body_exits_early(lp2) and len(sbody(lp2.body)) == 1:
             tab[utext(lp2.iter)] = utext(calls[0].args[0])
     rep.check(tab == {"self._market_middleware": "market", "self.strategies": "market.market_id"}, "R4",
               key(rm, None, "every middleware and every strategy releases its state for the market"), rm, None, str(tab))
@@ -278,7 +281,7 @@ def closed_market_results(ctx, rep, R):
     rep.check(good, R, key(f, None, "every order of the blotter is matched against every runner of the final book"), f)
     want = {"order.runner_status": "runner.status", "order.market_type": "market_book.market_definition.market_type",
             "order.each_way_divisor": "market_book.market_definition.each_way_divisor"}
-    sel = ("(order.selection_id, order.handicap) == (runner.selection_id, runner.handicap)", True)
+    sel = (ct("(order.selection_id, order.handicap) == (runner.selection_id, runner.handicap)"), True)
     for tgt, val in want.items():
         ns = [n for n in cfg.live_nodes() if n.kind == "stmt" and isinstance(n.ast, ast.Assign) and utext(n.ast.targets[0]) == tgt]
         good = len(ns) == 1 and utext(ns[0].ast.value) == val and \
@@ -290,7 +293,7 @@ def closed_market_results(ctx, rep, R):
             gs = tuple(sorted((utext(g.exprs[0]), pol) for g, pol in cfg.guards(n.id) if utext(g.exprs[0]) != sel[0]))
             dh[gs] = utext(n.ast.value)
     want_dh = {(("market_book.number_of_winners == 0", True),): "1",
-               (("market_book.number_of_winners == 0", False), ("number_of_winners > market_book.number_of_winners", True)): "number_of_winners"}
+               tuple(sorted([("market_book.number_of_winners == 0", False), (ct("number_of_winners > market_book.number_of_winners"), True)])): "number_of_winners"}
     rep.check(dh == want_dh, R, key(f, None, "dead-heat count: more WINNER runners than the market's number of winners"), f, None, str(dh))
     nw = [s for s in walk_nodes(f.node.body, ast.Assign) if utext(s.targets[0]) == "number_of_winners"]
     rep.check(len(nw) == 1 and "runner.status == 'WINNER'" in utext(nw[0].value) and utext(nw[0].value).startswith("len("), R,
